@@ -258,6 +258,60 @@ INFO.update({
                    caught_by="window_score fault schedule (initial presence symbolic)", initially_missed=False),
 })
 
+INFO.update({
+    'r4-C01': dict(change="yanny.pairs(): keys filtered with `k not in self._symbols` instead of against self.tables()", needs="a header keyword spelled exactly `struct` or `enum`",
+                   caught_by="misc header-keys / header-keys-table (keyword name a solver choice, among them the words the parser uses for its own bookkeeping)", initially_missed=True,
+                   strengthening="header keywords were the fixed names 'keyword' and 'num'; the name is now chosen by the solver from a list that contains struct, enum, typedef, symbols, char, id"),
+    'r4-C02': dict(change="get_token(): bare-word branch uses `string.split(None, 1)` instead of `re.split(r'\\s+', string, 1)`", needs="a brace-wrapped array cell with a blank or tab before the closing brace and a bare last element",
+                   caught_by="layout array-padding (padding inside the braces of array cells chosen by the solver)", initially_missed=True,
+                   strengthening="the engine's str.split(None, k) ignored maxsplit (a non-reproducing counterexample, exit 3, on the first run) - now CPython's rule, validated against str on every run; array cells were rendered without inner padding, which is now a solver choice"),
+    'r4-C03': dict(change="append(): 'nothing to append' judged from `len(datatable) == 0`; the comment header becomes the initial contents and is always written", needs="append() given a non-empty dict that carries no rows and no pairs (zero-length record array, empty column lists)",
+                   caught_by="history op append-empty (the spelling of 'nothing' chosen by the solver)", initially_missed=True,
+                   strengthening="append-empty only tried {}; it now also tries empty lists and zero-length record arrays under either letter case; the replay compares file contents, not the directory listing"),
+    'r4-C04': dict(change="chunks.getbounds(): the two `while` loops spreading a point over every declination slice within the margin became `if`", needs="declination slices narrower than the match length (grid clipped next to a pole) and a pair that straddles a whole slice",
+                   caught_by="chunk hash polar-narrow", initially_missed=True,
+                   strengthening="every hash configuration had slices wider than the match length; a polar configuration (chunk size 1, match length 0.95, Dec 88.5 / 89.5) was added"),
+    'r4-C05': dict(change="spheregroup(): renumbering loop replaced by `order = argsort(firstgroup); ingroup = order[ingroup]` (inverse permutation)", needs=">= 3 groups whose order of first appearance is a rotation of the chunk traversal order",
+                   caught_by="spheregroup n=3 chunks=2 (numbering by first member, first[], next[])", initially_missed=False),
+    'r4-C06': dict(change="unwrap_specobjid: decimal-string IDs converted through `astype(np.float64).astype(np.uint64)`", needs="a decimal-string ID with bits beyond float64's 53-bit mantissa",
+                   caught_by="unwrap spec decimal string digits=19", initially_missed=True,
+                   strengthening="first run inconclusive (exit 2: float() of a symbolic string unsupported); float() of an all-digit symbolic string is now the correctly rounded binary64 of the integer it spells (fpUnsignedToFP), the solver then finds a 19-digit ID that does not survive"),
+    'r4-C07': dict(change="sdss_flagname: the group lookup (KeyError for unknown groups) hoisted out of the per-bit loop", needs="an unknown group together with the value 0",
+                   caught_by="errors labels=2 (a zero value names no bits in any group)", initially_missed=False),
+    'r4-C08': dict(change="bspline.action(): `lower[1:] = upper[:-1] + 1` instead of the independent reversed uniq()", needs="evaluation points that leave a whole breakpoint interval empty, with points on both sides",
+                   caught_by="value nord=4 nbk=5 knots=gap npts=3", initially_missed=False),
+    'r4-C09': dict(change="maskpoints(): the two np.where clamps replaced by `np.clip(hmm+jj, 0, n)` (upper bound off by one)", needs="the failing coefficient is the last one, nord >= 4, more than one segment",
+                   caught_by="ill-posed tail_zero4", initially_missed=True,
+                   strengthening="every ill-posed case had its unsupported stretch in the middle or at order <= 3; cases with the zero-weight stretch at either end at order 3 and 4 and breakpoints beyond the data were added"),
+    'r4-C10': dict(change="iterfit: djs_reject gets `invvar=invvar` (caller order) instead of `invvar=invwork` (sorted)", needs="unsorted x and non-uniform weights",
+                   caught_by="iterfit with rejection on permuted input (mask of the documented procedure)", initially_missed=False,
+                   note="besides the reproduced violations one symbolic counterexample of the permutation obligation did not reproduce on the changed tree (HARNESS-ERROR line, exit code still 1)"),
+    'r4-C11': dict(change="combine1fiber: 'all spline coefficients are zero' test `== 0` became `< EPS`", needs="spline coefficients below 1.2e-7 in absolute sum (fluxes of order 1e-10 or a scaling-law test with small c)",
+                   caught_by="combine1fiber ivar scaling same5 (flux scaled by c, inverse variance by 1/c^2, fit outcome scaling with the data)", initially_missed=True,
+                   strengthening="the fit stub returned the fixed coefficient 1 and only the inverse variance was scaled; coefficients are symbolic (non-zero) now and a third run scales flux, inverse variance and the stub's outcome together"),
+    'r4-C12': dict(change="cap_distance: `if cm < 0: cdist *= -1` became `return np.sign(cm) * cdist`", needs="a cap with cm exactly 0",
+                   caught_by="is_in_cap at_centre=0, is_in_polygon caps=1, is_in_window", initially_missed=True,
+                   strengthening="the harness assumed cm != 0 (an over-constrained precondition); removed.  First run: exit 3 from a non-reproducing binary64 counterexample, no VIOLATION line"),
+    'r4-C13': dict(change="TraceSet.xy(): default grid built with np.linspace(xmin, xmax, nx)", needs="xmax - xmin with a fractional part and no xpos given",
+                   caught_by="TraceSet chebyshev 2x4 (default grid runs from xmin in unit steps)", initially_missed=False),
+    'r4-C14': dict(change="median (no width, no axis): even/odd decided by `len(array) % 2` instead of the element count", needs="an N-D input with an odd first axis and an even total count",
+                   caught_by="median n=6 even=0 shape=(3, 2)", initially_missed=True,
+                   strengthening="the median without a width was only run on 1-D input; 2-D and 3-D shapes added"),
+    'r4-C15': dict(change="computechi2.var computed from the SVD through `wwt = self.ww` without a copy (reading var overwrites the singular values)", needs="var read before the first read of covar on one object",
+                   caught_by="computechi2 2 parameters (read order chosen by the solver)", initially_missed=True,
+                   strengthening="the results were read in one fixed order; the order is now a solver choice among four orders that contain every ordered pair of attributes, and each result is read twice"),
+    'r4-C16': dict(change="readspec: table columns re-ordered by scatter `column[j] = data` instead of gather `data[j]`", needs=">= 2 plate-MJD groups whose grouping permutation is not self-inverse",
+                   caught_by="readspec n=3 latest (photometry / redshift row i belongs to request i)", initially_missed=False),
+    'r4-C17': dict(change="djs_reject: `qdone` from equal mask sums instead of equal masks", needs="a later iteration, not sticky, as many points returning as newly rejected",
+                   caught_by="reject n=2 ... (completion reported exactly when the mask did not change)", initially_missed=False),
+    'r4-C19': dict(change="filter_thru: `logdiff = np.absolute(logdiff)` removed", needs="a trace whose wavelengths decrease with pixel index",
+                   caught_by="filter_thru 1x6 9200-3800", initially_missed=True,
+                   strengthening="every wavelength image was ascending; a descending one was added (first run: no violation and 10x slower)"),
+    'r4-C20': dict(change="template_metadata exports every parameter-file keyword starting with `run`; only the success path restores them all", needs="a parameter file with an extra `run*` keyword and a failure after the metadata were read",
+                   caught_by="fault injection template_input (unknown extra keyword chosen by the solver)", initially_missed=True,
+                   strengthening="the yanny stub returned a plain dict with the known keywords only (the changed code failed on `.pairs()` - a failure path that restores - and passed); the stub is now a mapping with pairs() / tables() and an extra keyword (none / rundate / home) chosen by the solver"),
+})
+
 RAN = ["in the scratch worktree: /venv/bin/python -m pytest -q -p no:cacheprovider (with the change)",
        "in the scratch worktree: /venv/bin/python _seed/demo.py with the change and after `git apply -R _seed/patch.diff`",
        "git -C /repo apply patch.diff; cd /verif && ./check <PID> --tier quick; git -C /repo checkout -- .",
@@ -272,7 +326,7 @@ def main():
             continue
         m = json.load(open(p))
         m.update({'breaks_property': m.get('property'), 'change': info['change'], 'needs_to_manifest': info['needs'],
-                  'origin': ('independent sub-agent given only the property text and a scratch worktree of /repo' if not name.startswith(('r2-', 'r3-')) else
+                  'origin': ('independent sub-agent given only the property text and a scratch worktree of /repo' if not name.startswith(('r2-', 'r3-', 'r4-')) else
                              'later round: independent sub-agent given the property text, a scratch worktree of /repo and one sentence naming '
                              'which clause / function of the property to change, so that it differs from the first round'),
                   'ran': RAN, 'caught_by': info['caught_by'], 'initially_missed': info['initially_missed']})
